@@ -349,7 +349,10 @@ func (st *programState) runSaveStatement(saveStatement parser.SaveStatement) ([]
 	balance := st.getCachedBalance(*account, *asset)
 
 	if amt == nil {
-		balance.Set(big.NewInt(0))
+		// hide the whole balance (a negative balance is left untouched)
+		if balance.Sign() > 0 {
+			balance.Set(big.NewInt(0))
+		}
 	} else {
 		// Do not allow negative saves
 		if amt.Cmp(big.NewInt(0)) == -1 {
@@ -359,11 +362,13 @@ func (st *programState) runSaveStatement(saveStatement parser.SaveStatement) ([]
 			}
 		}
 
-		// we decrease the balance by "amt"
-		balance.Sub(balance, amt)
-		// without going under 0
-		if balance.Cmp(big.NewInt(0)) == -1 {
-			balance.Set(big.NewInt(0))
+		// we decrease the balance by "amt", without going under 0
+		// (a balance which is already negative is left untouched)
+		if balance.Sign() > 0 {
+			balance.Sub(balance, amt)
+			if balance.Cmp(big.NewInt(0)) == -1 {
+				balance.Set(big.NewInt(0))
+			}
 		}
 	}
 
